@@ -418,8 +418,9 @@ class NFANode(object):
     transitions : {symbol: set([:py:class:`NFANode`, ...]), ...}
         The transition rules from this node.
 
-        Empty transitions are listed under the symbol ``None`` and are always
-        bidirectional.
+        Empty transitions are listed under the symbol ``None``. Those created
+        by :py:meth:`add_transition` are bidirectional, those created by
+        :py:meth:`add_directed_empty_transition` are one-way.
     """
 
     def __init__(self):
@@ -438,6 +439,18 @@ class NFANode(object):
             dest_node.transitions[symbol].add(self)
         else:
             self.transitions[symbol].add(dest_node)
+
+    def add_directed_empty_transition(self, dest_node):
+        """
+        Add a directed (one-way) empty transition from this node to the
+        specified destination.
+
+        This is the type of empty transition required by Thompson's
+        constructions: a bidirectional empty transition would (e.g.) allow an
+        optional or alternated expression to be re-entered after it has been
+        matched.
+        """
+        self.transitions[None].add(dest_node)
 
     def equivalent_nodes(self):
         """
@@ -502,7 +515,7 @@ class NFA(object):
             nfa_a = cls.from_ast(ast.a)
             nfa_b = cls.from_ast(ast.b)
 
-            nfa_a.final.add_transition(nfa_b.start)
+            nfa_a.final.add_directed_empty_transition(nfa_b.start)
 
             return cls(nfa_a.start, nfa_b.final)
         elif isinstance(ast, Symbol):
@@ -515,11 +528,11 @@ class NFA(object):
             nfa_a = cls.from_ast(ast.a)
             nfa_b = cls.from_ast(ast.b)
 
-            nfa.start.add_transition(nfa_a.start)
-            nfa.start.add_transition(nfa_b.start)
+            nfa.start.add_directed_empty_transition(nfa_a.start)
+            nfa.start.add_directed_empty_transition(nfa_b.start)
 
-            nfa_a.final.add_transition(nfa.final)
-            nfa_b.final.add_transition(nfa.final)
+            nfa_a.final.add_directed_empty_transition(nfa.final)
+            nfa_b.final.add_directed_empty_transition(nfa.final)
 
             return nfa
         elif isinstance(ast, Star):
@@ -527,11 +540,11 @@ class NFA(object):
 
             sub_nfa = cls.from_ast(ast.expr)
 
-            nfa.start.add_transition(nfa.final)
-            nfa.start.add_transition(sub_nfa.start)
+            nfa.start.add_directed_empty_transition(nfa.final)
+            nfa.start.add_directed_empty_transition(sub_nfa.start)
 
-            sub_nfa.final.add_transition(sub_nfa.start)
-            sub_nfa.final.add_transition(nfa.final)
+            sub_nfa.final.add_directed_empty_transition(sub_nfa.start)
+            sub_nfa.final.add_directed_empty_transition(nfa.final)
 
             return nfa
 
